@@ -16,6 +16,116 @@ from pyexpr2lean import (Gen, Tr, Untranslatable, load, get_def, find_assign, fi
 # ------------------------------------------------------------------------------------------------
 # three-valued structural facts inside translated items
 # ------------------------------------------------------------------------------------------------
+# calls that turn any iterable into a sequence holding the same items in the same order
+MATERIALISERS = ('_as_sequence', 'list', 'tuple')
+
+
+def is_rebind(stmt, name):
+    """`name = M(name)` or `if name is not None: name = M(name)` with M a materialiser: the name keeps the same items"""
+    if isinstance(stmt, ast.If):
+        return (ast.unparse(stmt.test).replace(' ', '') == f'{name} is not None'.replace(' ', '') and not stmt.orelse
+                and len(stmt.body) == 1 and is_rebind(stmt.body[0], name))
+    return (isinstance(stmt, ast.Assign) and len(stmt.targets) == 1 and ast.unparse(stmt.targets[0]) == name
+            and isinstance(stmt.value, ast.Call) and ast.unparse(stmt.value.func) in MATERIALISERS
+            and [ast.unparse(a) for a in stmt.value.args] == [name] and not stmt.value.keywords)
+
+
+ONE_PASS_CONSUMERS = ('zip', 'zip_longest', 'enumerate', 'map', 'sorted', 'reversed', 'iter', 'max', 'min', 'sum', 'filter', 'chain')
+ARRAY_WRAPPERS = ('np.asarray', 'np.array', 'np.ascontiguousarray')
+
+
+def iter_param_verdict(fn, p):
+    """how does `fn` read its parameter `p`, documented as an iterable?   True  - it materialises it first (p = M(p), M in
+    MATERIALISERS) or reads it exactly once, front to back (for / zip / enumerate / handing it on whole);   False - recognised and
+    wrong for an iterable that can be traversed only once or has no len(): read twice, read inside a loop, measured (len), indexed
+    or handed to np.asarray before being materialised;   None - some other use (not recognised)"""
+    parents = {}
+    skip = set()
+    for node in ast.walk(fn):
+        for child in ast.iter_child_nodes(node):
+            parents[child] = node
+        if node is not fn and isinstance(node, (ast.FunctionDef, ast.Lambda)) and p in [a.arg for a in node.args.args]:
+            skip.update(ast.walk(node))                          # a nested function with its own parameter of that name
+    loads = sorted([n for n in ast.walk(fn) if isinstance(n, ast.Name) and n.id == p and isinstance(n.ctx, ast.Load) and n not in skip],
+                   key=lambda n: (n.lineno, n.col_offset))
+
+    def fname(call):
+        return ast.unparse(call.func)
+
+    def repeated(n):
+        """is n evaluated more than once per call (inside a loop body / comprehension element)?  None: inside a nested function"""
+        child, node = n, parents[n]
+        while node is not fn:
+            if isinstance(node, (ast.For, ast.AsyncFor)) and child is not node.iter:
+                return True
+            if isinstance(node, ast.While):
+                return True
+            if isinstance(node, (ast.ListComp, ast.SetComp, ast.GeneratorExp, ast.DictComp)):
+                if not (child is node.generators[0]):
+                    return True
+            if isinstance(node, ast.comprehension) and child is not node.iter:
+                return True
+            if isinstance(node, (ast.FunctionDef, ast.Lambda)):
+                return None
+            child, node = node, parents[node]
+        return False
+
+    materialised = False
+    count = 0
+    for n in loads:
+        par = parents[n]
+        if isinstance(par, ast.Compare) and all(isinstance(o, (ast.Is, ast.IsNot)) for o in par.ops) \
+                and all(isinstance(c, ast.Constant) and c.value is None for c in par.comparators):
+            continue                                             # `p is None` does not read the items
+        if materialised:
+            continue
+        rep = repeated(n)
+        if rep is None:
+            return None
+        if rep:
+            return False
+        if isinstance(par, ast.Call) and n in par.args:
+            f = fname(par)
+            if f in MATERIALISERS and par.args == [n] and not par.keywords:
+                top = par
+                while isinstance(parents[top], ast.Call) and fname(parents[top]) in ARRAY_WRAPPERS and parents[top].args[:1] == [top]:
+                    top = parents[top]
+                st = parents[top]
+                count += 1
+                if isinstance(st, ast.Assign) and len(st.targets) == 1 and isinstance(st.targets[0], ast.Name) and st.targets[0].id == p:
+                    materialised = True
+                continue
+            if f == 'len' or f in ARRAY_WRAPPERS:
+                return False
+            count += 1                                           # zip / enumerate / ... or handed on whole: one pass
+            continue
+        if isinstance(par, ast.keyword):
+            count += 1
+            continue
+        if isinstance(par, (ast.For, ast.comprehension)) and par.iter is n:
+            count += 1
+            continue
+        if isinstance(par, ast.Subscript) and par.value is n:
+            return False
+        if isinstance(par, ast.Starred):
+            count += 1
+            continue
+        return None
+    if count == 0:
+        return None
+    return count == 1
+
+
+def iter_params_fact(pairs):
+    """pairs: [(function node, parameter name)]; three-valued conjunction"""
+    verdicts = [iter_param_verdict(fn, p) for fn, p in pairs]
+    if any(v is False for v in verdicts):
+        return False
+    if any(v is None for v in verdicts):
+        return None
+    return True
+
+
 def tri(right, wrong=False):
     """'true'  : the construct was recognised and is what the theorems need
        'false' : recognised and WRONG (the theorem over it fails)
@@ -678,6 +788,8 @@ def generate(repo):
             norm(ast.unparse(find_assign(fn, 'm'))) == '0'
         # the m = 0 part
         m0 = [s for s in fn.body if isinstance(s, ast.If) and 'cm0' in ast.unparse(s.test)]
+        # (an `if cm0 is not None: cm0 = <materialise>(cm0)` in front of the guard only rebinds cm0 to the same items)
+        m0 = [s for s in m0 if not is_rebind(s, 'cm0')]
         m0_ok = len(m0) == 1 and norm(ast.unparse(m0[0].test)) == norm('cm0 is not None and len(cm0) > 0')
         return '\n'.join([
             f'def q2dReadBase (a0 : K) : K := {ba}',
@@ -748,12 +860,23 @@ def generate(repo):
                                       'modes.reshape((len(modes), -1))')]
         selects = [norm(t) for t in ('modes[:, mask.ravel()].T', 'modes[:, mask.reshape(-1)].T', 'modes[:, mask.flatten()].T',
                                      "modes[:, mask.ravel(order='C')].T")]
-        okm = len(modes) == 3 and modes[0] == norm('np.asarray(modes)') and modes[1] in reshapes and modes[2] in selects
+        asarr = [norm('np.asarray(modes)')] + [norm(f'np.asarray({f}(modes))') for f in MATERIALISERS]
+        okm = len(modes) == 3 and modes[0] in asarr and modes[1] in reshapes and modes[2] in selects
         calls = find_calls(fn, 'np.linalg.lstsq')
         okc = len(calls) == 1 and [ast.unparse(a) for a in calls[0].args[:2]] == ['modes', 'data']
         ret = returns_in_order(fn)[-1]
         return True if (mask and data and okm and okc and ast.unparse(ret) == 'c') else None
     g.fact('lstsqDropsExactlyNonFiniteSamplesFromDataAndModes', f'{INIT}:lstsq', lstsq_fact)
+
+    def iter_fact():
+        return iter_params_fact(
+            [(get_def(jac, 'jacobi_sum_clenshaw'), 's'), (get_def(qp, 'change_basis_Qbfs_to_Pn'), 'cs'), (get_def(qp, 'clenshaw_qbfs'), 'cs'),
+             (get_def(qp, 'change_of_basis_Q2d_to_Pnm'), 'cns'), (get_def(qp, 'clenshaw_q2d'), 'cns'),
+             (get_def(qp, 'compute_z_zprime_Q2d'), 'cm0'), (get_def(qp, 'compute_z_zprime_Q2d'), 'ams'),
+             (get_def(qp, 'compute_z_zprime_Q2d'), 'bms'), (get_def(qp, 'Q2d_nm_c_to_a_b'), 'nms'), (get_def(qp, 'Q2d_nm_c_to_a_b'), 'coefs'),
+             (get_def(ini, 'sum_of_2d_modes'), 'modes'), (get_def(ini, 'lstsq'), 'modes')])
+    g.fact('iterableArgumentsAreReadOnceOrMaterialisedFirst',
+           f'{JAC}:jacobi_sum_clenshaw {QP}:clenshaw_qbfs,clenshaw_q2d,compute_z_zprime_Q2d,Q2d_nm_c_to_a_b {INIT}:sum_of_2d_modes,lstsq', iter_fact)
 
     return g.finish()
 
